@@ -132,6 +132,8 @@ func TestElementRoundTrip(t *testing.T) {
 			{KeyTransport: RSA15, XencPrefix: "e", Extras: true, KeyID: "_k1", KeyIDRef: true, ID: "_d1"},
 			{KeyTransport: RSAOAEP11, Digest: DigestSHA256, MGF: MGF1SHA512, XencPrefix: "-", DsPrefix: "-", Extras: true, EmbedCert: true, KeyID: "_k1", KeyIDRef: true, OAEPParams: []byte{}},
 			{KeyTransport: RSAOAEPMGF1P, Digest: DigestSHA1, DsPrefix: "-", EmbedCert: true},
+			{KeyTransport: RSA15, KeyID: "_k", DataKIBefore: []string{"keyname", "retrieval"}, DataKIAfter: []string{"foreign", "keyvalue"}, KeyKIBefore: []string{"keyname"}, KeyKIAfter: []string{"x509data"}, EmbedCert: true},
+			{KeyTransport: RSAOAEPMGF1P, KeyID: "_k", DsPrefix: "-", XencPrefix: "-", DataKIBefore: []string{"x509data", "keyvalue"}, KeyKIAfter: []string{"keyvalue", "foreign"}},
 		} {
 			for _, sib := range []bool{false, true} {
 				o := tr
